@@ -16,8 +16,9 @@ def ops_for(n):
     out = [('append', g) for g in POOL[:3]] + [('append_obj', 0), ('extend', ('{e}', '[f]')), ('reverse',), ('clear',),
                                                   ('slice', 0, 2), ('slice', 1, None), ('str',), ('append', BAD[0]),
                                                   ('insert', 0, BAD[1]), ('append', ' '), ('pop_default',)]
-    for i in (-n - 2, -2, -1, 0, 1, n, n + 3):
+    for i in (-n - 2, -n - 1, -n, -2, -1, 0, 1, n - 1, n, n + 1, n + 2, n + 3):
         out.append(('insert', i, POOL[1]))
+        out.append(('insert', i, '{new}'))
     for i in (-1, 0, 1, n):
         out.append(('pop', i))
         out.append(('getitem', i))
